@@ -233,7 +233,15 @@ def main():
             entries.append({"file": cf, "function": cq, "mode": mode, "sha": h, "via": "helper"})
         table[p["id"]] = entries
         print(p["id"], f"{nroot} anchors + {len(entries) - nroot} helpers:", ", ".join(f"{e['function']}[{e['mode'][0]}]" for e in entries[nroot:])[:900])
-    json.dump({"python": list(sys.version_info[:2]), "base": subprocess.run(["git", "-C", "/repo", "rev-parse", "HEAD"], capture_output=True, text=True).stdout.strip(), "pins": table},
+    # digest of the library's sources at HEAD (from a scratch export, so that a dirty working tree does not matter)
+    import tempfile, shutil
+    tmp = tempfile.mkdtemp(prefix="mkpins-")
+    try:
+        subprocess.run(f"git -C /repo archive HEAD sigpyproc | tar -x -C {tmp}", shell=True, check=True)
+        tree = P.tree_digest(tmp)
+    finally:
+        shutil.rmtree(tmp, ignore_errors=True)
+    json.dump({"python": list(sys.version_info[:2]), "tree": tree, "base": subprocess.run(["git", "-C", "/repo", "rev-parse", "HEAD"], capture_output=True, text=True).stdout.strip(), "pins": table},
               open("/verif/pins.json", "w"), indent=1)
 
 
